@@ -115,3 +115,27 @@ Theorem C13_div_two_is_joinpath : forall (B : backend) (u : url) (a : str) (x : 
   truediv B u ((a ++ [x]) ++ 47%N :: c) = joinpath B u [a ++ [x]; c] false.
 Proof. exact div_two_is_joinpath. Qed.
 Print Assumptions C13_div_two_is_joinpath.
+
+(** Tie to the source by translation: raw_parts, raw_name, raw_suffix, with_name,
+    _with_raw_name and with_suffix of class URL (yarl/_url.py) are re-read from the working
+    tree on every run (harness/gen_model.py, modifier scheme: tuples with a starred tail, the
+    local list updates [parts.append(x)], [parts[-1] = x], [parts[0] = ""], [name.rfind(".")]
+    with None for -1, [name[i:]], [name[:-len(old)]]) and proved equal to the model functions
+    the theorems above are about; every list index of the source is shown never to be reached
+    on an empty list (the emitted functions never return the index error). *)
+From Yarl Require Import Model.Url Model.GenTypes Generated.UrlGen Proofs.GenNamesProofs.
+Theorem C13_source_raw_parts : forall u : url, gen_raw_parts u = raw_parts u.
+Proof. exact gen_raw_parts_ok. Qed.
+Print Assumptions C13_source_raw_parts.
+Theorem C13_source_raw_name_suffix : forall u : url,
+  gen_raw_name u = Ok (raw_name u) /\ gen_raw_suffix u = Ok (raw_suffix u).
+Proof. intros u. split; [apply gen_raw_name_ok|apply gen_raw_suffix_ok]. Qed.
+Print Assumptions C13_source_raw_name_suffix.
+Theorem C13_source_with_name : forall (B : backend) (u : url) (nm : str) (kq kf : bool),
+  gen_with_raw_name u nm kq kf = with_raw_name u nm kq kf /\ gen_with_name B u nm kq kf = with_name B u nm kq kf.
+Proof. intros B u nm kq kf. split; [apply gen_with_raw_name_ok|apply gen_with_name_ok]. Qed.
+Print Assumptions C13_source_with_name.
+Theorem C13_source_with_suffix : forall (B : backend) (u : url) (sfx : str) (kq kf : bool),
+  gen_with_suffix B u sfx kq kf = with_suffix B u sfx kq kf.
+Proof. exact gen_with_suffix_ok. Qed.
+Print Assumptions C13_source_with_suffix.
